@@ -4,6 +4,7 @@ judged by spec/trace/Trace_Pipeline.tla against spec/Pipeline.tla (the compositi
 decode -> table -> Filters -> print).  Each property takes the verdict only for the clauses that are its
 own statement seen through the real wiring of main.rs:
 
+  C07  c_*  every printed line is one JSON record whose df / icao24 equal those carried by its frame
   C09  a_*  framing: receptions of a receiver = its sent frames, in order, un-escaped, none invented
   C10  b_*  grouping of receptions into records w.r.t. the recorded arrival stamps and --deduplication
   C11  d_filter, bd_lost  a record is printed iff Keep(cfg, rec) (filters given on the command line / TOML)
@@ -17,6 +18,7 @@ generation failure) it is skipped and the reason is written to the evidence file
 from .. import core, pipeline
 
 OWN = {
+    "C07": ("c_",),
     "C09": ("a_",),
     "C10": ("b_", "bd_lost"),
     "C11": ("d_filter", "bd_lost", "c_junk"),
